@@ -4,7 +4,9 @@
 (* raised, WRKChain + BEACON registered, stream live), in three encodings:   *)
 (*  (a) the message names x and the transaction is signed only by y's key;   *)
 (*  (b) the message names x and is properly signed by x;                     *)
-(*  (c) y wraps the message naming x in a self-signed MsgExec.               *)
+(*  (c) y wraps the message naming x in a self-signed MsgExec;               *)
+(*  (d)-(g) the same through x/authz grants: granted for the type, granted   *)
+(*      for another type, granted and revoked, executed by a third party.    *)
 (* Explored breadth-first; every behaviour is replayed on the real app.      *)
 EXTENDS Genesis
 
@@ -56,14 +58,29 @@ Alphabet ==
   \cup { Tx(<<Templates("gov")[i][1]>>) @@ [signers |-> <<y>>] : i \in 12..15, y \in {"A1", "A4"} }
 
 ScriptTail == <<EndEv, ComEv, [a |-> "BeginBlock", dt |-> 1000], EndEv, ComEv>>
-Choices == Alphabet
+\* (d) x grants y a generic authorisation for exactly the message type, then y executes the message naming x;
+\* (e) the grant is for ANOTHER type; (f) the grant is revoked before y executes; (g) y executes for x and for
+\* itself in one wrapper.  y = the account after x.
+NextAcct(x) == CASE x = "A1" -> "A2" [] x = "A2" -> "A3" [] x = "A3" -> "A4" [] OTHER -> "A1"
+OtherType(t) == IF t = "Send" THEN "WRec" ELSE "Send"
+Grant(x, y, t) == Tx(<<[t |-> "Grant", granter |-> x, grantee |-> y, mt |-> t]>>)
+Revoke(x, y, t) == Tx(<<[t |-> "Revoke", granter |-> x, grantee |-> y, mt |-> t]>>)
+ExecBy(y, m) == Tx(<<[t |-> "Exec", grantee |-> y, msgs |-> <<m>>]>>)
+GrantChoices ==
+  UNION { UNION { LET m == Templates(x)[i][1]  y == NextAcct(x) IN
+                  { [ev |-> Grant(x, y, m.t), tail |-> <<ExecBy(y, m)>> \o ScriptTail \o <<[a |-> "BeginBlock", dt |-> 1000], ExecBy(y, m), EndEv, ComEv>>],
+                    [ev |-> Grant(x, y, OtherType(m.t)), tail |-> <<ExecBy(y, m)>> \o ScriptTail],
+                    [ev |-> Grant(x, y, m.t), tail |-> <<Revoke(x, y, m.t), ExecBy(y, m)>> \o ScriptTail],
+                    [ev |-> Grant(x, y, m.t), tail |-> <<ExecBy(NextAcct(y), m), Revoke(y, x, m.t)>> \o ScriptTail] }
+                : i \in 1..11 } : x \in AcctSet }
+Choices == { [ev |-> e, tail |-> ScriptTail] : e \in Alphabet } \cup GrantChoices
 Init == /\ st = StateOf(Gen) /\ hist = <<[a |-> "InitChain", g |-> Gen]>> /\ todo = Prefix /\ phase = "prefix" /\ nTx = 0
 Run == /\ todo # <<>>
        /\ st' = Step(st, Head(todo)).st /\ hist' = Append(hist, Head(todo)) /\ todo' = Tail(todo)
        /\ UNCHANGED <<phase, nTx>>
 Choose == /\ todo = <<>> /\ phase = "prefix"
-          /\ \E ev \in Choices :
-               st' = Step(st, ev).st /\ hist' = Append(hist, ev) /\ todo' = ScriptTail /\ phase' = "tail" /\ nTx' = 1
+          /\ \E c \in Choices :
+               st' = Step(st, c.ev).st /\ hist' = Append(hist, c.ev) /\ todo' = c.tail /\ phase' = "tail" /\ nTx' = 1
 Done == todo = <<>> /\ phase = "tail" /\ phase' = "done" /\ UNCHANGED <<st, hist, nTx, todo>>
 Next == Run \/ Choose \/ Done
 Spec == Init /\ [][Next]_vars
